@@ -167,7 +167,7 @@ def recipe_shape(scope):
     if len(res) != 1:
         return f'{len(res)} reservations per unit of the recipe (expected exactly 1)'
     recv = ast.unparse(res[0].func.value).replace(' ', '')
-    edge_alias = {ast.unparse(x.targets[0]): ast.unparse(x.value).replace(' ', '') for x in inner.body if isinstance(x, ast.Assign)}
+    edge_alias = {ast.unparse(x.targets[0]): ast.unparse(x.value).replace(' ', '') for x in list(inner.body) + list(outer.body) if isinstance(x, ast.Assign)}
     if not (recv == f'self.in_edges[{k}]' or edge_alias.get(recv) == f'self.in_edges[{k}]'):
         return f'the reservation is made on `{recv}`, not on self.in_edges[{k}]'
     apps = [c for x in inner.body for c in ast.walk(x) if isinstance(c, ast.Call) and isinstance(c.func, ast.Attribute) and c.func.attr == 'append']
